@@ -131,7 +131,10 @@ def jit_vs_interpreter(chk, r, rep, n_points, n_runs, max_pto):
                 worst = max(worst, float(np.abs(va - vb).max()))
                 scale = max(scale, float(np.abs(va).max()))
         d.update(maxdiff=worst, scale=scale)
-        chk.search_case("run_jit_vs_interpreter", worst <= 1e-7 * max(scale, 1e-300), what="operator differs between compiled and interpreted mode", data=d, sample=d, nontrivial=scale > 0)
+        # adaptive quadrature takes different subdivisions when the integrand differs in the last bits:
+        # at NNLO the two modes agree to the quadrature accuracy (~1e-6 of the operator), not to 1e-7
+        tol = (1e-7 if rq["theory"]["PTO"] <= 1 else 2e-6) * max(scale, 1e-300)
+        chk.search_case("run_jit_vs_interpreter", worst <= tol, what="operator differs between compiled and interpreted mode", data=d, sample=d, nontrivial=scale > 0)
 
 
 def run(tier):
